@@ -198,6 +198,10 @@ LOAD_PATH = ("python/experiment/model/conf.py", "python/experiment/model/fronten
              "python/experiment/model/data.py")
 
 
+# class-level sets that only remember which warnings were logged already (read by nothing but the logging helper itself)
+LOG_ONLY_CLASS_STATE = {"FlowIRExperimentConfiguration._suppressed_warnings", "Dosini._suppressed_warnings"}
+
+
 def check_module_memos(ctx, rule: str, consequence: str) -> None:
     """No function of the load path writes into a module-level list/dict/set (a process-wide memo).  Shared by C15.R6 and C07.R11.
     Expected count on a healthy tree is zero; the selftest keeps a positive example (a parse cache keyed by path and mtime)."""
@@ -207,14 +211,18 @@ def check_module_memos(ctx, rule: str, consequence: str) -> None:
     for rel in LOAD_PATH:
         mm = ctx.repo.module(rel)
         globs = state.module_mutable_globals(mm.tree)
+        cattrs = state.class_mutable_attrs(mm.tree)
         for q, f in mm.functions.items():
-            if q.count(".") > 1:
-                continue
+            if q.rsplit(".", 1)[0] in mm.functions:
+                continue            # a function defined inside another function: walked with its owner (methods of nested classes are not)
             n_fn += 1
-            if not globs:
-                continue
-            for (node, name, how) in state.module_global_writes(f, globs):
+            for (node, name, how) in (state.module_global_writes(f, globs) if globs else []):
                 hits.append((rel, q, node, name, how))
+            # a mutable object bound in a class BODY is process-wide as well (seed C06-14: a translation table on ScopeStack.Scope)
+            for (node, name, how) in (state.class_attr_writes(f, cattrs) if cattrs else []):
+                if name in LOG_ONLY_CLASS_STATE:
+                    continue
+                hits.append((rel, q, node, "class attribute " + name, how))
     for (rel, q, node, name, how) in hits:
         ctx.ob(rule, node, False,
                "%s writes into the module-level object %s of %s (%s): it outlives the call and is shared by every later load in the "
